@@ -207,6 +207,9 @@ enum Ev {
     Close, Drop, CloseTwice, CloseThenDrop, CloseNotify, Abort, ShutdownAck, ShutdownThenComplete, ShutdownAlone,
     IceStop, IceStopThenClose, PeerClose, PeerDrop, RaceCloseNotify, RaceCloseAbort, RaceCloseClose,
     BlockedThenClose, BlockedThenAbort, BlockedThenCloseNotify,
+    /// thorough only: drop in mid-handshake while the relay keeps starving DTLS: the teardown waits for the
+    /// DTLS handshake timeout (30 s)
+    DropStarved,
 }
 impl Ev {
     /// the stimuli as the model sees them (threads of `option event`; None = the harness waited)
@@ -217,6 +220,7 @@ impl Ev {
             // a drop that lands while start_dtls holds its own reference is deferred until the handshake ends
             Ev::Drop if phase == Phase::DtlsHandshaking => format!("[{}]", t(&["Some Drop", "None", "Some DtlsDone"])),
             Ev::Drop => format!("[{}]", t(&["Some Drop"])),
+            Ev::DropStarved => format!("[{}]", t(&["Some Drop", "None", "Some DtlsFail"])),
             Ev::CloseTwice => format!("[{}]", t(&["Some Close", "Some Close"])),
             Ev::CloseThenDrop => format!("[{}]", t(&["Some Close", "Some Drop"])),
             Ev::CloseNotify => format!("[{}]", t(&["Some PeerCloseNotify"])),
@@ -239,7 +243,7 @@ impl Ev {
     fn blocked(self) -> bool { matches!(self, Ev::BlockedThenClose | Ev::BlockedThenAbort | Ev::BlockedThenCloseNotify) }
     /// the application itself closed or dropped A as part of the event
     fn app_closed(self) -> bool {
-        matches!(self, Ev::Close | Ev::Drop | Ev::CloseTwice | Ev::CloseThenDrop | Ev::IceStopThenClose | Ev::RaceCloseNotify | Ev::RaceCloseAbort | Ev::RaceCloseClose | Ev::BlockedThenClose)
+        matches!(self, Ev::Close | Ev::Drop | Ev::DropStarved | Ev::CloseTwice | Ev::CloseThenDrop | Ev::IceStopThenClose | Ev::RaceCloseNotify | Ev::RaceCloseAbort | Ev::RaceCloseClose | Ev::BlockedThenClose)
     }
     /// a lower layer ended the connection: a visible end is demanded without any application call
     fn lower_end(self) -> bool {
@@ -247,11 +251,14 @@ impl Ev {
     }
     /// the connection's channels are ended by the event (each must have seen its one Close)
     fn ends_assoc(self) -> bool { self.app_closed() || self.lower_end() }
-    fn drops_a(self) -> bool { matches!(self, Ev::Drop | Ev::CloseThenDrop) }
+    fn drops_a(self) -> bool { matches!(self, Ev::Drop | Ev::CloseThenDrop | Ev::DropStarved) }
 }
 
 #[derive(Clone, Debug)]
-struct Scenario { phase: Phase, ev: Ev, jitter_ms: u64, kind: &'static str }
+struct Scenario { phase: Phase, ev: Ev, jitter_ms: u64, kind: &'static str,
+    /// Some(k): single-threaded runtime, the peer's close_notify is sent, the harness yields k times, then A.close():
+    /// scans the window between the DTLS task seeing the alert and the state task acting on it
+    yields: Option<u32> }
 
 #[derive(Default)]
 struct Outcome {
@@ -495,7 +502,7 @@ async fn run_scenario(sc: Scenario) -> Outcome {
         let a = a_opt.as_ref().unwrap();
         match ev {
             Ev::Close | Ev::BlockedThenClose => a.close(),
-            Ev::Drop => {}
+            Ev::Drop | Ev::DropStarved => {}
             Ev::CloseTwice => { a.close(); a.close(); }
             Ev::CloseThenDrop => a.close(),
             Ev::CloseNotify | Ev::BlockedThenCloseNotify => {
@@ -519,6 +526,11 @@ async fn run_scenario(sc: Scenario) -> Outcome {
             }
             Ev::PeerClose => { if let Some(b) = &s.b { b.close(); } }
             Ev::PeerDrop => { s.b = None; s.dcb = None; }
+            Ev::RaceCloseNotify if sc.yields.is_some() => {
+                if let Some(d) = s.b.as_ref().and_then(|b| b.verif_dtls_transport()) { d.close(); }
+                for _ in 0..sc.yields.unwrap() { tokio::task::yield_now().await; }
+                a.close();
+            }
             Ev::RaceCloseNotify | Ev::RaceCloseAbort | Ev::RaceCloseClose => {
                 let a2 = a.clone();
                 let b2 = s.b.clone();
@@ -562,6 +574,11 @@ async fn run_scenario(sc: Scenario) -> Outcome {
         if now != last || now_c != last_c { last = now; last_c = now_c; stable_since = Instant::now(); }
         let ended = last.reason.is_some() && matches!(last.peer, PeerConnectionState::Disconnected | PeerConnectionState::Failed | PeerConnectionState::Closed);
         let quiet = stable_since.elapsed() > Duration::from_millis(if want_end && !ended { 1500 } else { 300 });
+        if ev == Ev::DropStarved {
+            // bounded by the DTLS handshake timeout (30 s) + margin
+            if (ended && quiet) || t_event.elapsed() > Duration::from_secs(36) { break; }
+            continue;
+        }
         if quiet || t_event.elapsed() > SETTLE_MAX { break; }
     }
     out.settle_ms = ms(t_event.elapsed());
@@ -655,7 +672,7 @@ fn reason_term(r: &Option<DisconnectReason>) -> String {
 /// (model term, oracle verdict, description, usable)
 fn judge(sc: &Scenario, o: &Outcome) -> (String, Option<String>, serde_json::Value, bool) {
     let mut fails: Vec<String> = vec![];
-    let desc_base = json!({"phase": format!("{:?}", sc.phase), "event": format!("{:?}", sc.ev), "jitter_ms": sc.jitter_ms});
+    let desc_base = json!({"phase": format!("{:?}", sc.phase), "event": format!("{:?}", sc.ev), "jitter_ms": sc.jitter_ms, "yields_before_close": sc.yields});
     if let Some(e) = &o.setup_failed {
         return ("-".into(), None, json!({"scenario": desc_base, "setup_failed": e}), false);
     }
@@ -757,6 +774,12 @@ async fn uut_case(cause: &'static str) -> (serde_json::Value, Option<String>) {
         }
         "local_close" => u.sctp.close(),
         "close_twice" => { u.sctp.close(); u.sctp.close(); }
+        // channel 1 is closed by the application first (its Close is delivered, its stream stays open), then the peer aborts
+        "close_channel_then_abort" => {
+            let _ = tokio::time::timeout(CALL_BOUND, u.sctp.close_data_channel(1)).await;
+            tokio::time::sleep(Duration::from_millis(30)).await;
+            u.inject_chunks(&[Chunk { ty: 6, flags: 0, value: vec![] }])
+        }
         _ => u.pair.server.dtls.close(), // peer DTLS close_notify
     }
     let r = tokio::time::timeout(CALL_BOUND, sender).await;
@@ -804,15 +827,18 @@ fn scenarios(tier: &str, seed: u64) -> Vec<Scenario> {
         (RtpFlowing, vec![Close, Drop, CloseTwice, IceStop, IceStopThenClose, PeerClose]),
     ];
     let mut v = vec![];
-    for (p, evs) in &table { for e in evs { v.push(Scenario { phase: *p, ev: *e, jitter_ms: 0, kind: "exhaustive" }); } }
+    for (p, evs) in &table { for e in evs { v.push(Scenario { phase: *p, ev: *e, jitter_ms: 0, kind: "exhaustive", yields: None }); } }
+    // close() landing k scheduler turns after the peer's close_notify was sent (single-threaded runtime)
+    let scan = if tier == "thorough" { 120 } else { 40 };
+    for k in 0..scan { v.push(Scenario { phase: ChannelsOpen, ev: RaceCloseNotify, jitter_ms: 0, kind: "race-scan", yields: Some(k) }); }
+    if tier == "thorough" { v.push(Scenario { phase: DtlsHandshaking, ev: DropStarved, jitter_ms: 0, kind: "exhaustive", yields: None }); }
     // the same table again at random moments after the phase boundary ("at any moment")
     let mut rng = vh::Rng::new(seed);
-    let rounds = if tier == "thorough" { 6 } else { 1 };
+    let rounds = if tier == "thorough" { 20 } else { 3 };
     for _ in 0..rounds {
         for (p, evs) in &table {
             for e in evs {
-                if tier != "thorough" && !rng.chance(1, 2) { continue; }
-                v.push(Scenario { phase: *p, ev: *e, jitter_ms: rng.range(1, 40), kind: "random-moment" });
+                v.push(Scenario { phase: *p, ev: *e, jitter_ms: rng.range(1, 40), kind: "random-moment", yields: None });
             }
         }
     }
@@ -834,7 +860,8 @@ fn main() {
         hs.push(std::thread::spawn(move || loop {
             let item = { queue.lock().unwrap().pop() };
             let Some((i, sc)) = item else { break };
-            let rt = tokio::runtime::Builder::new_multi_thread().worker_threads(2).enable_all().build().unwrap();
+            let rt = if sc.yields.is_some() { tokio::runtime::Builder::new_current_thread().enable_all().build().unwrap() }
+                     else { tokio::runtime::Builder::new_multi_thread().worker_threads(2).enable_all().build().unwrap() };
             let sc2 = sc.clone();
             let o = match vh::catch(std::panic::AssertUnwindSafe(|| rt.block_on(run_scenario(sc2)))) {
                 Ok(o) => o,
@@ -847,7 +874,7 @@ fn main() {
     // SCTP-level cases on the main thread meanwhile
     let rt = tokio::runtime::Builder::new_multi_thread().worker_threads(2).enable_all().build().unwrap();
     let mut uut_results = vec![];
-    for cause in ["abort", "shutdown_ack", "shutdown_complete", "dtls_close_notify", "local_close", "close_twice"] {
+    for cause in ["abort", "shutdown_ack", "shutdown_complete", "dtls_close_notify", "local_close", "close_twice", "close_channel_then_abort"] {
         uut_results.push(rt.block_on(uut_case(cause)));
     }
     rt.shutdown_timeout(Duration::from_millis(200));
@@ -883,7 +910,7 @@ fn main() {
         if let Some(l) = o.sender_latency_ms { max_sender_ms = max_sender_ms.max(l); }
         *per_phase.entry(format!("{:?}", sc.phase)).or_default() += 1;
         *per_event.entry(format!("{:?}", sc.ev)).or_default() += 1;
-        out.push(vh::Case { term, key: format!("{:?} {:?} {}", sc.phase, sc.ev, sc.jitter_ms), desc, oracle_fail: fail, known: None, nontrivial: true, kind: sc.kind.into() });
+        out.push(vh::Case { term, key: format!("{:?} {:?} {} {:?}", sc.phase, sc.ev, sc.jitter_ms, sc.yields), desc, oracle_fail: fail, known: None, nontrivial: true, kind: sc.kind.into() });
     }
     // more than a few scenarios that cannot be set up means the harness is not measuring anything
     if setup_failed * 5 > n {
